@@ -127,7 +127,7 @@ func genUntrusted(g *G, tier string, emit func(string)) {
 				}
 				em("c", "P", bytesTargets[0], b)
 				em("c", "U", bytesTargets[4], append(append([]byte{0x9f}, b...), 0xff))
-				em("c", "U", bytesTargets[5], append(append([]byte{0xa1, 0x61, 0x6b}, b...)))
+				em("c", "U", bytesTargets[5], append([]byte{0xa1, 0x61, 0x6b}, b...))
 				em("c", "U", bytesTargets[0], b[:len(b)-1]) // cut before the break
 			}
 		}
